@@ -7,10 +7,9 @@
  "annotate": ["netbuf/netbuf_write.c"],
  "defines": ["VERIF_HALLOC"],
  "models": ["models/net_events.c", "models/net_netapi.c", "models/net_os.c"],
- "cbmc": ["--malloc-may-fail", "--malloc-fail-null"],
- "unwind": 24,
+ "cbmc": ["--malloc-may-fail", "--malloc-fail-null", "--unwindset", "poke.0:1,poke_wrapped_for_contract_checking.0:1,netbuf_write_consume_wrapped_for_contract_checking.0:4,netbuf_write_consume.0:4"],
  "timeout": 300,
- "assumptions": ["reserve, consume and poke inlined; network_write per models/net_netapi.c (may fail); malloc may fail", "case split: buflen > 0 or a non-empty queue here; the zero-length write into an empty queue is nw_write_zero", "the F6 postcondition of reserve is not part of this contract", "--unwind 24 only bounds the constant-size loops of the DFCC library and the else-branch loop of STAILQ_REMOVE, which is unreachable here (the removed buffer is always the head): the unwinding assertions are discharged, so nothing is cut off (not a bounded stand-in)"]
+ "assumptions": ["reserve, consume and poke inlined; network_write per models/net_netapi.c (may fail); malloc may fail", "case split: buflen > 0 or a non-empty queue here; the zero-length write into an empty queue is nw_write_zero", "the F6 postcondition of reserve is not part of this contract", "--unwindset poke.0:1 only bounds the else-branch loop of STAILQ_REMOVE in poke, which is unreachable (the removed buffer is always the head): the unwinding assertions are discharged, so nothing is cut off (not a bounded stand-in)"]
 }
 */
 #include <stdlib.h>
